@@ -37,6 +37,7 @@ class G:
         self.assert_code = None    # exact-type assertions generated from the compiler model's declarations
         self.mcompile = None       # the compiler model's answer for this grammar
         self.wf = None             # WellFormed.well_formed (the termination certificate checks), from the model
+        self.wf_lr = None          # LRTerm.well_formed_lr (left recursion through @leftrec rules allowed)
         self.exports = []
 
 
